@@ -326,7 +326,11 @@ class Gen:
         if named:
             plist = list(ports)
             if forward and not f['fwd_named_any_order']:
-                pass  # all ports, header order: the first forward named use fixes the port order of the black box
+                # header order: the first forward named use fixes the port order of the black box; a third of the
+                # time only a leading part of the ports is listed (the rest stay open in this instance) - a later
+                # positional use of the same module still has to reach the ports left out here
+                if r.random() < 0.3 and len(plist) > 1:
+                    plist = plist[:r.randrange(1, len(plist))]
             else:
                 r.shuffle(plist)
                 if r.random() < 0.3 and plist:
